@@ -124,6 +124,18 @@ pub fn do_marker(ctx: &mut Ctx, letter: char, seg: &[u8], prefix: &[u8]) {
     }
 }
 
+/// text without any marker is CP1252, byte by byte — also when the bytes happen to form well-formed UTF-8 (or UTF-16, or carry
+/// a byte-order mark): nothing is sniffed
+pub fn do_unmarked(ctx: &mut Ctx, b: &[u8]) {
+    do_dec(ctx, b, true);
+    if b.windows(2).any(|w| w[0] == b'^' && "LGCETBJHSK8".contains(w[1] as char)) { return; }
+    let want = dec_bytes(spec_enc('L').unwrap(), b);
+    let got = real_dec(b);
+    if got.as_deref() != Some(want.as_str()) {
+        ctx.violation("c10/unmarked", "bytes without a codepage marker are not read as CP1252, byte by byte", &format!("cp.dec {}", hex(b)), &cps(&want), &format!("{:?}", got.map(|x| cps(&x))));
+    }
+}
+
 /// two markers in a row: "^X" seg1 "^Y" seg2 — every switch, including the return to Latin-1 by ^8 after a non-Latin codepage
 pub fn do_marker2(ctx: &mut Ctx, x: char, seg1: &[u8], y: char, seg2: &[u8]) {
     let mut b = vec![b'^', x as u8];
@@ -204,6 +216,7 @@ pub fn replay_line(ctx: &mut Ctx, l: &str) -> bool {
         ["cp.dec", h] => {
             let b = unhex(h);
             do_dec(ctx, &b, true);
+            if !b.windows(2).any(|w| w[0] == b'^' && "LGCETBJHSK8".contains(w[1] as char)) { do_unmarked(ctx, &b); }
             // ^X seg1 ^y seg2 with a marker in front: the two-marker / caret-pair-inside-a-run oracles
             let carets: Vec<usize> = b.iter().enumerate().filter(|(_, x)| **x == b'^').map(|(i, _)| i).collect();
             if carets.len() == 2 && carets[0] == 0 && b.len() >= 2 && carets[1] >= 2 && carets[1] + 1 < b.len() && "LGCETBJHSK8".contains(b[1] as char) {
@@ -304,6 +317,12 @@ pub fn run(ctx: &mut Ctx) {
         do_marker(ctx, l, &[0xef, 0xbb, 0xbf, b'a'], b"");
         do_marker(ctx, l, b"abc", &[0xff, 0xfe, b'q']);
     }
+    // unmarked bytes that look like UTF-8: every two-byte lead/continuation pair, samples of the three- and four-byte forms, in
+    // the middle of ASCII text and alone; Latin-1 texts whose CP1252 bytes form such pairs ("Ã©", "Â£", "SÃ£o")
+    for a in 0xC2u8..=0xDF { for b in 0x80u8..=0xBF { if quick && (a as usize * 64 + b as usize) % 5 != 0 { continue; } do_unmarked(ctx, &[a, b]); do_unmarked(ctx, &[b'S', a, b, b'o']); } }
+    for seq in [&[0xE2u8, 0x82, 0xAC][..], &[0xE6, 0x97, 0xA5], &[0xF0, 0x9F, 0x98, 0x80], &[0xEF, 0xBB, 0xBF, b'a'], &[0xC3, 0xA9, b' ', 0xC3, 0xA9], &[b'a', 0xC3], &[0xC3], &[0xE9]] { do_unmarked(ctx, seq); }
+    for t in ["\u{c3}\u{a9}", "\u{c2}\u{a3}", "S\u{c3}\u{a3}o", "\u{e2}\u{201a}\u{ac}"] { do_enc(ctx, t, true); }
+    ctx.exhaustive_domains.push(format!("unmarked input: every UTF-8 two-byte lookalike pair (C2..DF)(80..BF){} alone and inside ASCII, three- and four-byte forms, a BOM", if quick { " (every 5th in quick)" } else { "" }));
     // every ordered pair of markers, with a high byte after each
     for x in "LGCETBJHSK8".chars() {
         for y in "LGCETBJHSK8".chars() {
